@@ -1,11 +1,11 @@
 #!/bin/bash
-# seedall.sh: run every seeded change against its property's quick check; one summary line each
+# seedall.sh [pattern]: run every seeded change against its property's quick check (isolated: tools/seedrun2.sh);
+# one summary line each.  The committed state of /verif is what runs.
 cd /verif
-for d in seeded/C*; do
+for d in seeded/${1:-C}*; do
   n=$(basename $d); p=${n%%-*}
-  if ! git -C /repo apply --check /verif/$d/patch.diff 2>/dev/null; then echo "SEEDALL $n does-not-apply"; continue; fi
-  out=$(tools/seedrun.sh $p /verif/$d/patch.diff 2>&1)
+  out=$(tools/seedrun2.sh $p /verif/$d/patch.diff 2>&1)
   rc=$(echo "$out" | grep -o "exit=[0-9]*" | tail -1)
   nf=$(echo "$out" | grep -c "no-failing-input-found")
-  echo "SEEDALL $n $rc nofail=$nf $(echo "$out" | grep '\[check\]' | tail -1 | cut -c1-120)"
+  echo "SEEDALL $n $rc nofail=$nf $(echo "$out" | grep '\[check\]' | tail -1 | cut -c1-120) $(echo "$out" | grep -o 'patch does not apply')"
 done
